@@ -324,18 +324,18 @@ def ob_internal_filter(incl: bool, ipos: int, c0: int, nd: int, d1: int, d2: int
 
 
 @obligation(quick=200, thorough=600,
-            partitions_quick=["g1 == 0"] + [f"live_from == {k} and g1 == 2" for k in range(0, 3)],
+            partitions_quick=["g1 == 0", "g1 == 2 and live_from == 0", "g1 == 2 and live_from >= 1"],
             partitions_thorough=[f"nd == {n} and live_from == {k} and g1 == {g}" for n in range(0, 3) for k in range(0, 3) for g in (0, 2)],
             what="live run: events keep being appended (gaps shorter or longer than the heart-beat interval) while the "
                  "client streams and reconnects; heart-beat comment lines are ignored",
-            bounds={"events": 3, "already stored at connect": "0..2", "gap before each append": "0 or 2 (heartbeat every 1)",
+            bounds={"events": 3, "already stored at connect": "0..2", "gap before each append": "0 or 2 (heartbeat every 1); quick: the same gap before every append",
                     "faults": "0..1 quick / 0..2 thorough", "fault": "-1 or lines delivered 0..LMAX (incl. heart-beat lines)"})
 def ob_live_log(c0: int, live_from: int, g1: int, g2: int, g3: int, nd: int, d1: int, d2: int) -> bool:
     """
     pre: 0 <= live_from <= 2 and -1 <= c0 < live_from
     pre: (g1 == 0 or g1 == 2) and (g2 == 0 or g2 == 2) and (g3 == 0 or g3 == 2)
     pre: (live_from < 1 or g3 == 0) and (live_from < 2 or g2 == 0)
-    pre: GFREE or (g2 == 0 or g2 == g1) and (g3 == 0 or g3 == g1)
+    pre: GFREE or ((live_from >= 2 or g2 == g1) and (live_from >= 1 or g3 == g1))
     pre: 0 <= nd <= NDL
     pre: -1 <= d1 <= 3 * (2 - c0) + 2 * g1 * (3 - live_from) and -1 <= d2 <= 3 * (2 - c0) + 2 * g1 * (3 - live_from)
     pre: (nd >= 1 or d1 == -1) and (nd >= 2 or d2 == -1)
@@ -344,4 +344,5 @@ def ob_live_log(c0: int, live_from: int, g1: int, g2: int, g3: int, nd: int, d1:
     c0 = _concrete(c0, -1, 1)
     live_from = _concrete(live_from, 0, 2)
     faults = [_concrete(d1, -1, LMAX), _concrete(d2, -1, LMAX)][:_concrete(nd, 0, 2)]
-    return _run(3, c0, False, -1, 2, faults, live_from=live_from, gaps=[g1, g2, g3], heartbeat=1.0)
+    gaps = [_concrete(g1, 0, 2), _concrete(g2, 0, 2), _concrete(g3, 0, 2)]
+    return _run(3, c0, False, -1, 2, faults, live_from=live_from, gaps=gaps, heartbeat=1.0)
